@@ -46,6 +46,7 @@ type IntCase struct {
 	WebSeed     int               `json:"web_seed"`     // 0 none, 1 honest, 2 corrupting, 3 truncating
 	WriteDelays []int             `json:"write_delays"` // ms, cycled over storage writes
 	Cmds        []Cmd             `json:"cmds"`
+	FailWrites  []int             `json:"fail_writes"` // ordinals of storage writes that fail with an I/O error (nothing written)
 	ReqOut      int               `json:"max_requests_out"`
 	EndgameMax  int               `json:"endgame_max"`
 }
@@ -74,8 +75,12 @@ func genInt(t *rapid.T) IntCase {
 			b.ChokeAfter, b.ChokeMs = rapid.IntRange(1, 4).Draw(t, "ca"), rapid.SampledFrom([]int{1, 30}).Draw(t, "cms")
 			b.CorruptBlocks = []int{rapid.IntRange(0, 8).Draw(t, "cb")}
 		default:
-			b.DisconnectAfter = rapid.IntRange(1, 5).Draw(t, "da")
-			b.CorruptBlocks = []int{0}
+			if rapid.Bool().Draw(t, "closeOnPiece") {
+				b.CorruptAll, b.CloseOnPieceDone = true, true
+			} else {
+				b.DisconnectAfter = rapid.IntRange(1, 5).Draw(t, "da")
+				b.CorruptBlocks = []int{0}
+			}
 		}
 		c.Adversaries = append(c.Adversaries, b)
 		c.AdvDial = append(c.AdvDial, rapid.Bool().Draw(t, "advDial"))
@@ -84,6 +89,9 @@ func genInt(t *rapid.T) IntCase {
 	c.WriteDelays = rapid.SliceOfN(rapid.SampledFrom([]int{0, 0, 0, 1, 5, 25}), 1, 5).Draw(t, "wd")
 	for i := rapid.IntRange(0, 3).Draw(t, "ncmd"); i > 0; i-- {
 		c.Cmds = append(c.Cmds, Cmd{AtMs: rapid.IntRange(0, 400).Draw(t, "at"), Op: rapid.SampledFrom([]string{"stop", "start", "stop"}).Draw(t, "op")})
+	}
+	if rapid.IntRange(0, 2).Draw(t, "failw") == 0 {
+		c.FailWrites = rapid.SliceOfN(rapid.IntRange(0, 12), 1, 2).Draw(t, "failWrites")
 	}
 	c.ReqOut = rapid.SampledFrom([]int{1, 4, 250}).Draw(t, "reqout")
 	c.EndgameMax = rapid.SampledFrom([]int{1, 2, 20}).Draw(t, "eg")
@@ -219,6 +227,19 @@ func runInt(c IntCase) core.Result {
 			}
 		}
 		m.AfterWrite = j.onWrite
+		var fn int
+		m.FailWrite = func(name string, off int64, p []byte) error {
+			wmu.Lock()
+			defer wmu.Unlock()
+			k := fn
+			fn++
+			for _, f := range c.FailWrites {
+				if f == k {
+					return fmt.Errorf("injected: no space left on device")
+				}
+			}
+			return nil
+		}
 	}
 	cfg.CustomStorage = prov
 	cfg.MaxRequestsOut = c.ReqOut
@@ -288,6 +309,7 @@ func runInt(c IntCase) core.Result {
 						return
 					}
 					s := speer.Serve(p, b, F, int(l.PieceLength), infoBytes)
+					s.Mask = l.PadMask()
 					pmu.Lock()
 					allPeers = append(allPeers, p)
 					if st != nil {
@@ -337,6 +359,7 @@ func runInt(c IntCase) core.Result {
 		if st.dialing {
 			if p := dial(10+i, mkOpts(10+i, i%2 == 1)); p != nil {
 				s := speer.Serve(p, st.b, F, int(l.PieceLength), infoBytes)
+				s.Mask = l.PadMask()
 				pmu.Lock()
 				st.srv = append(st.srv, s)
 				pmu.Unlock()
@@ -384,6 +407,7 @@ func runInt(c IntCase) core.Result {
 	// sample Stats while waiting for completion
 	deadline := time.Now().Add(20 * time.Second)
 	completed := false
+	restarts := 0
 	<-cmdDone
 	for time.Now().Before(deadline) {
 		st := tor.Stats()
@@ -398,6 +422,14 @@ func runInt(c IntCase) core.Result {
 		}
 		if completed {
 			break
+		}
+		if st.Status == torrent.Stopped {
+			// the torrent stopped itself (an injected write error): start it again, as a user would
+			restarts++
+			_ = tor.Start()
+			for _, a := range addrs {
+				_ = tor.AddPeer(a)
+			}
 		}
 		time.Sleep(15 * time.Millisecond)
 	}
@@ -532,6 +564,9 @@ func runInt(c IntCase) core.Result {
 	}
 	if stopCmds > 0 {
 		lab["stop-start"] = true
+	}
+	if restarts > 0 {
+		lab["restart-after-write-error"] = true
 	}
 	for _, b := range c.Adversaries {
 		switch {
